@@ -116,18 +116,21 @@ Proof.
   split; [reflexivity|]. split; [vm_compute; repeat constructor|]. split; vm_compute; reflexivity.
 Qed.
 
-(* ---- non-vacuity of C01_kill: a crash in the middle of a snapshot (between the pointer save and the
-   final manifest save) of a history with rotation and compaction is outside the known class ---- *)
+(* ---- non-vacuity of C01_kill: crash index 44 of this history lies inside an automatic snapshot with log
+   compaction — after the pointer save and the pruned-list save, between the unlink of wal#1 and the unlink
+   of wal#2, before the final manifest save — and is outside the known class ---- *)
 Example C01_nonvacuous :
   wf_cfg pw_cfg = true /\ norm_ok pw_cfg /\
-  known_c01 pw_cfg pw_ops 40 = false /\ known_c01 pw_cfg pw_ops 41 = false /\
-  exists r, start pw_cfg (cp_dir (crash_hist pw_cfg pw_ops 40 true)) = SOk r /\
-            st_store r = cp_inflight (crash_hist pw_cfg pw_ops 40 true).
+  known_c01 pw_cfg pw_ops 44 = false /\
+  nth_error (init_effs ++ all_effs pw_cfg (init pw_cfg) pw_ops) 43 = Some (EUnlink (NWal 1)) /\
+  nth_error (init_effs ++ all_effs pw_cfg (init pw_cfg) pw_ops) 44 = Some (EUnlink (NWal 2)) /\
+  exists r, start pw_cfg (cp_dir (crash_hist pw_cfg pw_ops 44 false)) = SOk r /\
+            st_store r = cp_inflight (crash_hist pw_cfg pw_ops 44 false).
 Proof.
   split; [reflexivity|]. split.
   { intros v w H. cbn in H. unfold pw_norm in H. destruct v as [|z v]; [discriminate|]. inversion H; subst.
     split; [cbn [map length]; rewrite map_length; reflexivity|]. cbn. rewrite map_map. reflexivity. }
-  split; [vm_compute; reflexivity|]. split; [vm_compute; reflexivity|].
+  split; [vm_compute; reflexivity|]. split; [vm_compute; reflexivity|]. split; [vm_compute; reflexivity|].
   eexists. split; vm_compute; reflexivity.
 Qed.
 
